@@ -34,6 +34,7 @@ CONSTANTS MaxOps,       \* length of the generated histories
           BranchNames,  \* e.g. {"main", "b1"}
           OpKinds,      \* subset of AllOpKinds
           PredKeys,     \* <<S1,...>>: predicate i is true of v iff KeyOf[v] \in Si
+          CompactSplit, \* TRUE iff compaction starts a new object at every key change (see SortedWriterObjs)
           Shape,        \* <<K1,...>>: the i-th operation must have a kind in Ki (<<>> = unconstrained);
                         \* directs the exhaustive generation to history shapes of interest, inside Next
           Export        \* TRUE: print complete histories
@@ -99,7 +100,16 @@ WriterObjs(S) ==
 \* the threshold (observed on the real code; the split rule itself is exercised by
 \* the harness' large-value runs, where the observed partition is checked to be
 \* contiguous in key order and never to split equal keys).
-SortedWriterObjs(S) == IF S = {} THEN <<>> ELSE <<SortVals(S)>>
+RECURSIVE GroupByKey(_)
+GroupByKey(s) ==
+  IF s = <<>> THEN <<>>
+  ELSE LET k == SK(Head(s))
+           n == Cardinality({i \in 1..Len(s) : SK(s[i]) = k}) IN
+       <<SubSeq(s, 1, n)>> \o GroupByKey(SubSeq(s, n + 1, Len(s)))
+\* With a seek stride of a few bytes every value ends a frame, BytesWritten reaches a 1-byte
+\* threshold at once, and the split rule is observable: CompactSplit = TRUE (object per distinct key).
+SortedWriterObjs(S) ==
+  IF S = {} THEN <<>> ELSE IF CompactSplit THEN GroupByKey(SortVals(S)) ELSE <<SortVals(S)>>
 
 NewIds(n) == (Len(objs) + 1)..(Len(objs) + n)
 
